@@ -104,10 +104,13 @@ pub fn write_replay(prop: Prop, seed: u64, run: u64, j: &Value) -> PathBuf {
 
 /// Execute the scenario with tracing on; returns (violations, draw trace as JSON).
 pub fn exec_traced(prop: Prop, scn: &AnyScn) -> (crate::stats::RunResult, Value) {
-    crate::entropy::trace_enable(true);
-    let r = scn.exec(prop);
-    let items = crate::entropy::trace_take();
-    crate::entropy::trace_enable(false);
+    let (r, items) = crate::util::with_big_stack(|| {
+        crate::entropy::trace_enable(true);
+        let r = scn.exec(prop);
+        let items = crate::entropy::trace_take();
+        crate::entropy::trace_enable(false);
+        (r, items)
+    });
     let mut out = vec![];
     let mut cur_op: i64 = -1;
     for it in items {
